@@ -15,7 +15,7 @@ HARNESSES = [(PKG, HARNESS, "c14"), ("network/transport/v2", ["network/transport
              ("vcr", ["vcr/zz_verif_c14_test.go"], "c14v")]
 ROOT = os.path.dirname(os.path.dirname(os.path.abspath(__file__)))
 
-REQUIRED = ["no_loss", "admitted_by_commit", "only_admitted_delivered", "payload_event_per_transaction", "identical_payload_witness", "not_admitted_unchanged", "no_call_after_done",
+REQUIRED = ["no_loss", "admitted_by_commit", "only_admitted_delivered", "payload_event_per_transaction", "identical_payload_witness", "payload_no_loss_partial", "payload_available_no_loss_fails", "not_admitted_unchanged", "no_call_after_done",
             "no_call_after_done_split", "completed_job_gone", "call_after_done_without_presence_check", "call_after_done_when_write_back_recreates", "shared_key_witness",
             "delay_monotone", "delay_doubles", "typed_of_filter", "realSubs_are_the_registrations",
             "restart_redelivers", "delivered_at_least_once", "eventual_delivery", "eventual_delivery_from_start", "failed_visible",
@@ -402,6 +402,16 @@ def handler_oracle(ctx):
         sig = "C14:admitted-event-lost" if ident.get("payload-1") == "1" else "C14:call-after-completion:second-WritePayload-recreates-finished-job"
         ctx.violation(sig, f"real handleTransactionPayload, two transactions with identical payload: subscriber calls {ident}, expected {want_i}",
                       "handler-identical-payload.jsonl", open(wit).read() if os.path.exists(wit) else "see harness/inpkg/network/transport/v2/zz_verif_c14_test.go")
+    # open finding: the private transaction was admitted when its (identical) payload bytes were already stored: the real
+    # handlePrivateTxRetry reports done on "payload present" without WritePayload - its job is gone and no payload
+    # subscriber has been called for it; its payload would only be delivered if an unsolicited payload message arrived
+    pj = dict(re.findall(r"^identical-(\S+) err=\S+ calls=\d+ privateJobs=(\d+)", "\n".join(ctx.read_lines(os.path.join(out, "handler.out"))), re.M))
+    if ident.get("add-private") == ident.get("add-twin-with-payload") and pj.get("add-private") == "0":
+        wit = os.path.join(ROOT, "harness", "corpus", "C14", "private-tx-payload-already-stored.jsonl")
+        ctx.violation("C14:private-tx-with-already-stored-payload-gets-no-payload-event",
+                      "real v2 protocol: private transaction admitted while a transaction with byte-identical payload is already stored: handlePrivateTxRetry "
+                      f"finished its job (privateJobs={pj.get('add-private')}) and the payload subscriber was not called for it (calls {ident.get('add-private')})",
+                      "private-tx-payload-already-stored.jsonl", open(wit).read() if os.path.exists(wit) else "see harness/inpkg/network/transport/v2/zz_verif_c14_test.go")
     # the real "private" receiver (handlePrivateTxRetry, registered by the real Configure): retry / fatal / done
     want = {"db": "retried", "err": "fatal", "nokeys": "done", "present": "done"}
     got = dict(re.findall(r"^private-(\w+) class=(\w+)", "\n".join(ctx.read_lines(os.path.join(out, "handler.out"))), re.M))
